@@ -342,6 +342,7 @@ Section L.
       destruct (dget k (c_data ca)) as [va|]; [|destruct Hs]. destruct (dget k (c_data cb)) as [vb|]; [|destruct Hs].
       destruct nd, va, vb; cbn [Roundtrip.same_slot] in Hs; try (destruct Hs; fail); try reflexivity.
       + subst. reflexivity.
+      + destruct Hs as [-> ->]. reflexivity.
       + destruct v; try (destruct Hs; fail). reflexivity.
     - destruct (in_dec str_dec k (c_dyn cb)) as [Hin|Hnd].
       + rewrite Forall_forall in Hdv. destruct (Hdv _ Hin) as [x [H1 H2]]. rewrite H1, H2. reflexivity.
